@@ -24,6 +24,7 @@ func init() {
 				"is a fresh call inside its per-position loop (or, for the single position, outside any loop); the separator function is " +
 				"called once per gap, its result used only for that gap's token and never carried to the next iteration or call.",
 			Rules: []string{
+				"R4.0 every draw routine used is a schema instance (= C01 R1.1-R1.3, re-run here: a private biased copy of the bounded draw is reported by this check too)",
 				"R4.1 bound/collection agreement at every draw site of WLRecipe.Generate: word draw indexes list.words with bound Size() of the same list (size summary = saturated len); 'one' draw has bound uint32(Length) and its only use is the key set in the capitalisation map; 'random' draw has bound 2 and its only use is one comparison whose outcome partitions {0,1} into {0},{1}",
 				"R4.2 freshness per choice: word draw inside the counted loop 0<=i<Length on every iteration; coin draw inside a counted loop over all positions, setting key i exactly on one outcome; 'one' draw outside any loop",
 				"R4.3 separator per gap: the separator function is called in the loop body under i < Length-1, its string flows only to the separator token appended in the same iteration; no loop-carried value derives from it; separator closures created in the module store nothing (EFF)",
@@ -79,6 +80,9 @@ type tokAppend struct {
 	ttype int64
 }
 
+// names of Token's fields, resolved by type when a program is loaded
+var tokValF, tokTypF = "value", "tType"
+
 // tokenAppendOf recognises append(base, Token{value, type}).
 func tokenAppendOf(c *ssa.Call) (*tokAppend, bool) {
 	if !core.IsBuiltin(c, "append") || len(c.Call.Args) != 2 {
@@ -116,8 +120,8 @@ func tokenAppendOf(c *ssa.Call) (*tokAppend, bool) {
 				continue
 			}
 			lit := core.StructLiteral(tl)
-			ta.value = lit["value"]
-			if v := lit["tType"]; v != nil {
+			ta.value = lit[tokValF]
+			if v := lit[tokTypF]; v != nil {
 				if k, isC := core.ConstInt(v); isC {
 					ta.ttype = k
 				}
@@ -132,6 +136,7 @@ func resolveWLGen(p *core.Program) (*wlGen, string) {
 	if fn == nil {
 		return nil, "WLRecipe.Generate not found"
 	}
+	tokValF, tokTypF = tokenValueField(p), tokenTypeField(p)
 	g := &wlGen{fn: fn, loops: core.Loops(fn)}
 	for _, ref := range fn.Blocks[0].Instrs {
 		if al, ok := ref.(*ssa.Alloc); ok && paramCopiedInto(al) == 0 {
@@ -217,6 +222,7 @@ func runC04(p *core.Program, r *core.Report) {
 		return
 	}
 	name := core.FuncName(g.fn)
+	checkDrawRoutines(p, r, "R4.0", "R4.0", "R4.0")
 	r.Floor("R4.1", "draw sites in WLRecipe.Generate", len(g.draws), 3)
 	eng := &panicEngine{p: p, r: r, roles: GetRoles(p)}
 
@@ -447,7 +453,7 @@ func checkSeparatorPerGap(p *core.Program, r *core.Report, g *wlGen, rule string
 			}
 		case *ssa.Store:
 			// store into the Token literal's value field
-			if fa, ok := x.Addr.(*ssa.FieldAddr); !ok || core.FieldName(fa) != "value" {
+			if fa, ok := x.Addr.(*ssa.FieldAddr); !ok || core.FieldName(fa) != tokenValueField(p) {
 				okUses = false
 			}
 		case *ssa.Phi:
@@ -597,7 +603,7 @@ func runC05(p *core.Program, r *core.Report) {
 	okRes := false
 	core.Instrs(g.fn, func(in ssa.Instruction) {
 		if st, ok := in.(*ssa.Store); ok {
-			if fa, ok := st.Addr.(*ssa.FieldAddr); ok && core.FieldName(fa) == "tokens" && core.StripType(st.Val) == ssa.Value(g.tsPhi) && !c.Loop.Blocks[st.Block()] {
+			if fa, ok := st.Addr.(*ssa.FieldAddr); ok && core.FieldName(fa) == passwordTokensField(p) && core.StripType(st.Val) == ssa.Value(g.tsPhi) && !c.Loop.Blocks[st.Block()] {
 				okRes = true
 			}
 		}
@@ -841,7 +847,7 @@ func checkAccessors(p *core.Program, r *core.Report, atomV, sepV int64) {
 	if f := p.Method("Password", "Tokens"); f != nil {
 		ok := false
 		for _, ret := range core.Returns(f) {
-			if ref, okP := core.LoadPath(ret.Results[0]); okP && ref.Path == ".tokens" {
+			if ref, okP := core.LoadPath(ret.Results[0]); okP && ref.Path == "."+passwordTokensField(p) {
 				ok = true
 			}
 		}
@@ -849,7 +855,7 @@ func checkAccessors(p *core.Program, r *core.Report, atomV, sepV int64) {
 	}
 	for _, m := range []string{"Value", "Type"} {
 		if f := p.Method("Token", m); f != nil {
-			want := map[string]string{"Value": ".value", "Type": ".tType"}[m]
+			want := map[string]string{"Value": "." + tokenValueField(p), "Type": "." + tokenTypeField(p)}[m]
 			ok := false
 			for _, ret := range core.Returns(f) {
 				if ref, okP := core.LoadPath(ret.Results[0]); okP && ref.Path == want {
@@ -890,7 +896,7 @@ func isInOrderConcat(f *ssa.Function) (bool, string) {
 	if !ok || ri.Kind != "slice" {
 		return false, "not a range over the tokens"
 	}
-	if ref, okP := core.LoadPath(ri.X); !okP || ref.Path != ".tokens" {
+	if ref, okP := core.LoadPath(ri.X); !okP || !strings.HasPrefix(ref.Path, ".") || strings.Count(ref.Path, ".") != 1 {
 		return false, "ranged slice is not the tokens field"
 	}
 	for i, e := range phi.Edges {
@@ -921,7 +927,7 @@ func isValueOfElem(v ssa.Value, ri *core.RangeInfo) bool {
 	var tok ssa.Value
 	if c, ok := v.(*ssa.Call); ok && strings.HasSuffix(core.CallName(c), ".Token).Value") {
 		tok = c.Call.Args[0]
-	} else if ref, ok := core.LoadPath(v); ok && strings.HasSuffix(ref.Path, ".value") {
+	} else if ref, ok := core.LoadPath(v); ok && strings.HasSuffix(ref.Path, "."+tokValF) {
 		// load of the value field of a local copy
 		if al, ok := ref.Root.(*ssa.Alloc); ok {
 			for _, rr := range core.Referrers(al) {
